@@ -360,7 +360,9 @@ func fdRuns(out func(*runRec), seed int64, procs []int) {
 				sig   string
 				calls int64
 			}
-			run := func(name string, conc bool) res {
+			// junk: the destination (Gradient's dst, Hessian's receiver) is non-empty and holds stale
+			// non-zero values, as when one destination is reused for several calls
+			run := func(name string, conc, junk bool) res {
 				var calls atomic.Int64
 				yr := rand.New(rand.NewSource(seed + int64(dim)))
 				var ymu sync.Mutex
@@ -379,9 +381,23 @@ func fdRuns(out func(*runRec), seed int64, procs []int) {
 				switch name {
 				case "Gradient":
 					st.Formula = fd.Central
-					vals = fd.Gradient(nil, f, x, st)
+					var dst []float64
+					if junk {
+						dst = make([]float64, dim)
+						for i := range dst {
+							dst[i] = 7.5 + float64(i)
+						}
+					}
+					vals = fd.Gradient(dst, f, x, st)
 				case "Hessian":
 					h := mat.NewSymDense(dim, nil)
+					if junk {
+						for i := 0; i < dim; i++ {
+							for j := i; j < dim; j++ {
+								h.SetSym(i, j, 7.5+float64(i*dim+j))
+							}
+						}
+					}
 					fd.Hessian(h, f, x, st)
 					vals = h.RawSymmetric().Data
 				case "Laplacian":
@@ -397,18 +413,31 @@ func fdRuns(out func(*runRec), seed int64, procs []int) {
 				return res{hashF64(vals), calls.Load()}
 			}
 			for _, name := range []string{"Gradient", "Hessian", "Laplacian", "CrossLaplacian"} {
-				serial := run(name, false)
-				old := runtime.GOMAXPROCS(p)
-				base := runtime.NumGoroutine()
-				got := run(name, true)
-				leaked := settle(base)
-				runtime.GOMAXPROCS(old)
-				ok := 0
-				if got.sig == serial.sig {
-					ok = 1
+				serial := run(name, false, false)
+				for _, junk := range []bool{false, true} {
+					if junk && name != "Gradient" && name != "Hessian" {
+						continue // no destination argument
+					}
+					old := runtime.GOMAXPROCS(p)
+					base := runtime.NumGoroutine()
+					got := run(name, true, junk)
+					leaked := settle(base)
+					runtime.GOMAXPROCS(old)
+					ok := 0
+					if got.sig == serial.sig {
+						ok = 1
+					}
+					tag := ""
+					if junk {
+						tag = " dst=reused"
+						// the serial path must not depend on stale destination contents either
+						if sj := run(name, false, true); sj.sig != serial.sig {
+							ok = 0
+						}
+					}
+					out(&runRec{Kind: "call", Name: fmt.Sprintf("fd.%s dim=%d procs=%d%s", name, dim, p, tag), Leaked: leaked,
+						Calls: got.calls, ExpCalls: serial.calls, OK: ok, Ev: []outEv{}})
 				}
-				out(&runRec{Kind: "call", Name: fmt.Sprintf("fd.%s dim=%d procs=%d", name, dim, p), Leaked: leaked,
-					Calls: got.calls, ExpCalls: serial.calls, OK: ok, Ev: []outEv{}})
 			}
 		}
 	}
